@@ -73,15 +73,22 @@ def _fmt(v):
     return str(v)
 
 
-def write_clusters(clusters, path, extra=None):
-    """clusters: dict mutation_id -> cluster_id"""
+def write_clusters(clusters, path, style="minimal", samples=("A", "B")):
+    """clusters: dict mutation_id -> cluster_id.  style "minimal": one row per mutation (mutation_id, cluster_id);
+    "pyclone-vi": one row per mutation AND sample with per-sample columns, as PyClone-VI writes its results"""
     with open(path, "w") as f:
-        f.write("mutation_id\tcluster_id\n")
-        for m, c in clusters.items():
-            f.write("%s\t%s\n" % (m, c))
+        if style == "minimal":
+            f.write("mutation_id\tcluster_id\n")
+            for m, c in clusters.items():
+                f.write("%s\t%s\n" % (m, c))
+        else:
+            f.write("mutation_id\tsample_id\tcluster_id\tcellular_prevalence\tcellular_prevalence_std\tcluster_assignment_prob\n")
+            for m, c in clusters.items():
+                for j, smp in enumerate(samples):
+                    f.write("%s\t%s\t%s\t%.3f\t%.3f\t1.0\n" % (m, smp, c, 0.1 + 0.2 * j + 0.01 * (hash(str(c)) % 7), 0.02 + 0.01 * j))
 
 
-def load(rows, scratch, density="binomial", precision=400.0, G=5, outlier_prob=0.0, sep="\t", clusters=None, columns=None):
+def load(rows, scratch, density="binomial", precision=400.0, G=5, outlier_prob=0.0, sep="\t", clusters=None, columns=None, cluster_style="minimal"):
     from phyclone.data.pyclone import load_data
 
     os.makedirs(scratch, exist_ok=True)
@@ -91,7 +98,7 @@ def load(rows, scratch, density="binomial", precision=400.0, G=5, outlier_prob=0
         cf = None
         if clusters is not None:
             cf = os.path.join(td, "clusters.tsv")
-            write_clusters(clusters, cf)
+            write_clusters(clusters, cf, style=cluster_style, samples=sorted({str(r["sample_id"]) for r in rows}))
         with contextlib.redirect_stdout(io.StringIO()):
             data, samples = load_data(p, np.random.default_rng(0), 1e-4, 0.4, False, cluster_file=cf, density=density, grid_size=G, outlier_prob=outlier_prob, precision=float(precision))
     return data, samples
